@@ -211,13 +211,14 @@ def R_derives(toks):
     return R_attr(toks)
 
 def locate_block(toks, item, spec):
-    """block=<comment text>: the braced block whose first inner comment contains the text. Returns (a, b)
-    token indices of the block's statements (exclusive of the braces)."""
-    for i in range(item.body_open, item.b):
+    """block=<comment text>: the braced block whose first inner comment contains the text. Returns (a, b): token indices
+    of the block's braces."""
+    for i in range(item.body_open + 1, item.b):
         t = toks[i]
-        if t.text == "{" and i + 1 <= item.b and spec in toks[i+1].pre.split("\n", 2)[0:2].__str__():
-            e = match_close(toks, i)
-            return i, e
+        if t.text == "{" and i + 1 <= item.b:
+            first_comment = toks[i+1].pre.strip().split("\n")[0]
+            if first_comment.startswith("//") and spec in first_comment:
+                return i, match_close(toks, i)
     raise ScanError("block comment not found")
 
 def R_execconst(toks):
@@ -313,4 +314,15 @@ def R_pubfields(toks):
         if t.kind == "punct" and t.text in OPEN: depth += 1
         elif t.kind == "punct" and t.text in ")]}": depth -= 1
         out.append(t)
+    return out, n
+
+def R_clock(toks):
+    """`time::OffsetDateTime::now_utc()` becomes the parameter `now_param` (the clock is an input: the proof holds for every clock value)."""
+    pat = ["time", ":", ":", "OffsetDateTime", ":", ":", "now_utc", "(", ")"]
+    out = []; n = 0; i = 0
+    while i < len(toks):
+        if [x.text for x in toks[i:i+len(pat)]] == pat:
+            out.append(Tok("ident", "now_param", toks[i].pre, line=toks[i].line)); i += len(pat); n += 1; continue
+        out.append(toks[i]); i += 1
+    if n != 1: raise ScanError(f"R-clock: expected exactly one wall-clock read, found {n}")
     return out, n
